@@ -26,7 +26,8 @@ Definition subsetN (a b : list N) : bool := forallb (fun x => existsb (N.eqb x) 
 Definition set_eqN (a b : list N) : bool := subsetN a b && subsetN b a.
 
 (* observation after one event: sessions (peer name, ads) of the live sessions; PeersForService per service *)
-Record bobs := mk_bobs { o_sess : list (N * list adv); o_peers : list (N * list N) }.
+(* o_made: for every live session, (attribute, secret reference) of the arguments it was created with *)
+Record bobs := mk_bobs { o_sess : list (N * list adv); o_peers : list (N * list N); o_made : list (N * (N * N)) }.
 Record bcase := mk_bcase { b_id : N; b_me : N; b_pnames : list N; b_evs : list (bev * bobs) }.
 
 Definition sess_ok (st : bstate) (pnames : list N) (o : bobs) : bool :=
@@ -38,11 +39,20 @@ Definition sess_ok (st : bstate) (pnames : list N) (o : bobs) : bool :=
 Definition peers_ok (st : bstate) (o : bobs) : bool :=
   forallb (fun x => set_eqN (bs_active st (fst x)) (snd x)) (o_peers o).
 
+Definition made_obs_ok (st : bstate) (o : bobs) : bool :=
+  forallb (fun x => match find (fun q => pc_name (ps_cfg q) =? fst x) (bs_peers st) with
+                    | Some q => match ps_sess q, ps_made q with
+                                | Some _, Some c => (pc_attr c =? fst (snd x)) && (pc_ref c =? snd (snd x))
+                                | _, _ => false
+                                end
+                    | None => false
+                    end) (o_made o).
+
 Fixpoint brun_ok (cr : bool) (me : N) (pnames : list N) (st : bstate) (evs : list (bev * bobs)) : bool :=
   match evs with
   | [] => true
   | (e, o) :: r => let st' := bstep_gen cr me st e in
-                   sess_ok st' pnames o && peers_ok st' o && brun_ok cr me pnames st' r
+                   sess_ok st' pnames o && peers_ok st' o && made_obs_ok st' o && brun_ok cr me pnames st' r
   end.
 Definition bcase_ok (cr : bool) (c : bcase) : bool := brun_ok cr (b_me c) (b_pnames c) binit (b_evs c).
 Definition mismatches (cs : list bcase) : list N := map b_id (filter (fun c => negb (bcase_ok true c)) cs).
